@@ -315,6 +315,23 @@ def _o3(ctx, result, module):
                     result.add(Finding("R-OPT", module, qual, step.node,
                                        f"O3: an unknown option raises {name or 'nothing'} instead of KeyError",
                                        derivation=trace))
+                # polarity: the rejecting edge is the one on which the key is NOT in the table (the decision taken last)
+                prev = [s2 for s2 in path[:idx] if s2.kind == "assume"]
+                if prev:
+                    test, pol = prev[-1].expand(prev[-1].node), bool(prev[-1].data)
+                    while isinstance(test, ast.UnaryOp) and isinstance(test.op, ast.Not):
+                        test, pol = test.operand, not pol
+                    if isinstance(test, ast.Compare) and len(test.ops) == 1 and isinstance(test.ops[0], (ast.In, ast.NotIn)) \
+                            and ("π" + kwname) in U(test.left) and ctx_table_in(ctx, module, test.comparators[0]):
+                        member = pol if isinstance(test.ops[0], ast.In) else not pol
+                        result.ob(f"O3 the rejecting edge is 'key not in table' (line {step.orig.lineno})", not member,
+                                  module.loc(step.orig), U(prev[-1].node)[:60])
+                        if member:
+                            result.add(Finding(
+                                "R-OPT", module, qual, step.node,
+                                "O3: KeyError is raised on the edge where the key IS in the option table: known options are "
+                                "rejected and unknown ones are accepted into the table", derivation=trace,
+                                construct="set_options: inverted membership guard"))
     if n_mut == 0:
         raise AnalysisError("set_options: no mutation of the option table found (vacuous)")
     raises = [p for p in paths if p[-1].kind == "raise"]
